@@ -289,6 +289,13 @@ def corr(ctx):
     pe = quiet(E_.PolarCodeEncoder, 4, 8)
     soft_cases.append(("polar8+sc", pe, D_.SuccessiveCancellationDecoder(pe)))
     soft_cases.append(("polar8+sc_minsum", pe, D_.SuccessiveCancellationDecoder(pe, regime="min_sum")))
+    # longer polar codes, both coordinate orders, frozen ones, and the BP decoder (natural order only: it rejects polar_i)
+    for (kk_, nn_, inter_, fz_) in ((6, 16, True, True), (11, 32, True, False), (9, 16, False, False), (20, 64, True, True)):
+        pex = quiet(E_.PolarCodeEncoder, kk_, nn_, polar_i=inter_, frozen_zeros=fz_)
+        soft_cases.append(("polar%d_i%d_fz%d+sc" % (nn_, inter_, fz_), pex, D_.SuccessiveCancellationDecoder(pex)))
+        soft_cases.append(("polar%d_i%d_fz%d+sc_minsum" % (nn_, inter_, fz_), pex, D_.SuccessiveCancellationDecoder(pex, regime="min_sum")))
+        if not inter_:
+            soft_cases.append(("polar%d_fz%d+bp" % (nn_, fz_), pex, quiet(D_.BeliefPropagationPolarDecoder, pex, bp_iters=20)))
     for cname, enc, dec in soft_cases:
         n, k = enc.code_length, enc.code_dimension
         for tn in tnames:
